@@ -128,6 +128,32 @@ def TW.visitAll (startDepth : Nat) (a : TW Node) : List (WriteNode Node VH) → 
   | [] => a
   | c :: cs => TW.visitAll startDepth (a.visit H cfg startDepth c) cs
 
+/-- `replace_terminal` (the visitor calls of `build_trie`; a panic of `build_trie` leaves the walker alone) -/
+def TW.replaceTerminal (a : TW Node) (ops : List (Key × VH)) : TW Node :=
+  match buildEvents H a.pos.length ops with
+  | some evs => TW.visitAll H cfg a.pos.length a evs
+  | none => a
+
+/-- `advance_and_replace`: compact towards the new position, jump there (`build_stack`), replace -/
+def TW.advanceAndReplace (a : TW Node) (t : Path) (ops : List (Key × VH)) : TW Node :=
+  ({ a.compactUp H cfg (some t) with pos := t } : TW Node).replaceTerminal H cfg ops
+
+/-- `advance` -/
+def TW.advance (a : TW Node) (t : Path) : TW Node := a.compactUp H cfg (some t)
+
+/-- `conclude` -/
+def TW.conclude (a : TW Node) : TW Node := a.compactUp H cfg none
+
+/-- one step of a script: a terminal position with the new content of its sub-trie (`none`: `advance` only) -/
+def TW.step (a : TW Node) (s : Path × Option (List (Key × VH))) : TW Node :=
+  match s.2 with
+  | some ops => a.advanceAndReplace H cfg s.1 ops
+  | none => a.advance H cfg s.1
+
+def TW.run (a : TW Node) : List (Path × Option (List (Key × VH))) → TW Node
+  | [] => a
+  | s :: ss => TW.run (a.step H cfg s) ss
+
 end
 
 /-! ## paths -/
